@@ -8,6 +8,8 @@ import (
 	"github.com/bronlabs/bron-crypto/pkg/base/curves/k256"
 	"github.com/bronlabs/bron-crypto/pkg/base/curves/pairable/bls12381"
 	"github.com/bronlabs/bron-crypto/pkg/base/serde"
+	"github.com/bronlabs/bron-crypto/pkg/commitments/intcom"
+	"github.com/bronlabs/bron-crypto/pkg/encryption/paillier"
 	"github.com/bronlabs/bron-crypto/pkg/key_agreement"
 	"github.com/bronlabs/bron-crypto/pkg/key_agreement/dh/dhc"
 	"github.com/bronlabs/bron-crypto/pkg/mpc"
@@ -15,7 +17,6 @@ import (
 	"github.com/bronlabs/bron-crypto/pkg/mpc/sharing"
 	mpcbls "github.com/bronlabs/bron-crypto/pkg/mpc/signatures/bls"
 	"github.com/bronlabs/bron-crypto/pkg/mpc/signatures/ecdsa/cggmp21"
-	cggmpdealer "github.com/bronlabs/bron-crypto/pkg/mpc/signatures/ecdsa/cggmp21/keygen/trusteddealer"
 	"github.com/bronlabs/bron-crypto/pkg/mpc/signatures/ecdsa/dkls23"
 	"github.com/bronlabs/bron-crypto/pkg/mpc/signatures/ecdsa/lindell17"
 	l17dealer "github.com/bronlabs/bron-crypto/pkg/mpc/signatures/ecdsa/lindell17/keygen/trusted_dealer"
@@ -296,7 +297,7 @@ func registerShards() {
 	type l17Shard = lindell17.Shard[KP, KB, KS]
 	l17 := sync.OnceValue(func() map[sharing.ID]*l17Shard {
 		a := ac23()
-		m, _, err := l17dealer.DealRandom[KP, KB, KS](curve, must(catalog.Build(a.p, a.ids)), 256, stream("shards/lindell17"))
+		m, _, err := l17dealer.DealRandom[KP, KB, KS](curve, must(catalog.Build(a.p, a.ids)), 512, stream("shards/lindell17"))
 		must0(err)
 		out := map[sharing.ID]*l17Shard{}
 		for id, sh := range m.Iter() {
@@ -333,9 +334,22 @@ func registerShards() {
 	})
 	// cggmp21 (256-bit test keys; ring-Pedersen safe-prime moduli)
 	type cgShard = cggmp21.Shard[KP, KB, KS]
+	// built from fixed small keys through the public constructors (the dealer needs >= 1792-bit moduli and safe primes)
 	cg := sync.OnceValue(func() map[sharing.ID]*cgShard {
 		a := thresholdAC(2, 1, 2)
-		return must(cggmpdealer.Deal[KP, KB, KS](curve, must(catalog.Build(a.p, a.ids)), 256, stream("shards/cggmp21")))
+		m := must(trusteddealer.Deal(curve, must(catalog.Build(a.p, a.ids)), stream("shards/cggmp21")))
+		sk := map[sharing.ID]*paillier.SecretKey{1: paillierSK(primeTable[1]), 2: paillierSK(primeTable[0])}
+		rp := map[sharing.ID]*intcom.TrapdoorKey{1: intcomTrapdoor(primeTable[2], "cggmp21/rp1"), 2: intcomTrapdoor(safe512, "cggmp21/rp2")}
+		refresh := make([]byte, 32)
+		_, _ = stream("cggmp21/refresh").Read(refresh)
+		out := map[sharing.ID]*cgShard{}
+		for _, id := range []sharing.ID{1, 2} {
+			other := 3 - id
+			aux := must(cggmp21.NewAuxInfo(sk[id], map[sharing.ID]*paillier.PublicKey{other: sk[other].Public()}, rp[id], map[sharing.ID]*intcom.CommitmentKey{other: rp[other].Export()}, refresh))
+			b, _ := m.Get(id)
+			out[id] = must(cggmp21.NewShard[KP, KB, KS](b, aux))
+		}
+		return out
 	})
 	add(spec[*cggmp21.AuxInfo]{
 		name: "cggmp21.AuxInfo", covers: "pkg/mpc/signatures/ecdsa/cggmp21.AuxInfo", group: "shards",
